@@ -72,6 +72,8 @@ pub struct FileCfg {
     pub group: Option<String>,
     pub flags: Vec<&'static str>,
     pub caps: Option<String>,
+    /// verify flags (None: the builder's default, everything)
+    pub verify: Option<u32>,
     pub link: Option<String>,
     pub mtime: u32,
 }
@@ -245,6 +247,9 @@ pub fn file_options(f: &FileCfg) -> Result<FileOptions, rpm::Error> {
     if let Some(c) = &f.caps {
         o = o.caps(c.clone())?;
     }
+    if let Some(v) = f.verify {
+        o = o.verify(rpm::FileVerifyFlags::from_bits_retain(v));
+    }
     Ok(o.into())
 }
 
@@ -381,10 +386,10 @@ pub fn rand_dest(rng: &mut Rng, used: &mut Vec<String>) -> String {
         let mut p = String::new();
         for _ in 0..depth {
             p.push('/');
-            p.push_str(*rng.pick(&["usr", "etc", "opt", "a", "b.d", "share", "lib64", "x-y"]));
+            p.push_str(*rng.pick(&["usr", "etc", "opt", "a", "b.d", "share", "lib64", "x-y", "app-1.", "v2..d", ".cfg"]));
         }
         p.push('/');
-        p.push_str(*rng.pick(&["f", "g.txt", "README", "bin", "conf.d", "é", "a b", "z"]));
+        p.push_str(*rng.pick(&["f", "g.txt", "README", "bin", "conf.d", "é", "a b", "z", "dot.", "..x"]));
         p.push_str(&rng.below(50).to_string());
         let d = if rng.chance(1, 3) { format!(".{p}") } else { p.clone() };
         // a destination may not be a prefix directory of another one, nor a duplicate
@@ -465,6 +470,8 @@ pub fn rand_file(rng: &mut Rng, used: &mut Vec<String>, max_len: usize) -> FileC
         flags,
         caps: if rng.chance(1, 6) { Some(rng.pick(&["cap_net_admin=ep", "cap_chown,cap_kill+p", "=e", "all=i cap_bpf-e", "cap_net_raw,cap_net_admin=ep\n", "  =e cap_chown-e ", "CAP_Kill=p"]).to_string()) } else { None },
         link,
+        // (what `rpm -V` is to check is the packager's business; what the package records about the file is not)
+        verify: if rng.chance(1, 6) { Some(*rng.pick(&[0u32, 0xFFFF_FFFE, 0x0000_00F2, 0x0000_0001, 0x0000_01FF])) } else { None },
         mtime: *rng.pick(&[0u32, 1, 1_000_000_000, 1_599_999_999, 1_600_000_000, 1_600_000_001, 1_700_000_000, 2_000_000_000]),
     }
 }
